@@ -1144,6 +1144,10 @@ func (x *Exec) callAnchors(fr *Frame, calleeKey string, st *State, reach Term, p
 			for ai, a := range ci.Common().Args {
 				env.vars[fmt.Sprintf("arg%d", ai)] = x.val(fr, a)
 			}
+			// recv: the interface value a method is invoked on
+			if ci.Common().IsInvoke() {
+				env.vars["recv"] = x.val(fr, ci.Common().Value)
+			}
 		}
 		t := x.trBool(ac.Clause.Expr, env)
 		if ac.Kind == "assert" {
